@@ -6,7 +6,7 @@ Open Scope char_scope.
 Definition kv_eqb (a b : kv) : bool := bytes_eqb (fst a) (fst b) && bytes_eqb (snd a) (snd b).
 
 (* ---------- lookup cases (C01 / C08 / C09) ---------- *)
-Inductive obs := ONone | OFound (pat : bytes) (tsr : bool) (params : list kv).
+Inductive obs := ONone | OFound (pat : bytes) (tsr : bool) (params : list kv) | OPanic.
 
 Definition obs_eqb (a b : obs) : bool :=
   match a, b with
@@ -112,6 +112,6 @@ Definition value_starts_star (ps : list kv) : bool :=
 Definition l_known_star (full : bool) (c : lcase) : bool :=
   let q := snd c in
   negb (if full then lspec_full_ok c else lspec_direct_ok c) && entrypoints_agree c && lmodel_agrees c &&
-  match q_lookup q with OFound _ _ ps => value_starts_star ps | ONone => false end.
+  match q_lookup q with OFound _ _ ps => value_starts_star ps | _ => false end.
 Definition l_known_star_direct (cs : list lcase) : list nat := true_idx (map (l_known_star false) cs).
 Definition l_known_star_full (cs : list lcase) : list nat := true_idx (map (l_known_star true) cs).
